@@ -1,0 +1,53 @@
+//go:build verif
+
+package broker
+
+import (
+	"net"
+
+	"github.com/emitter-io/emitter/internal/message"
+	"github.com/emitter-io/emitter/internal/network/listener"
+	"github.com/emitter-io/emitter/internal/provider/storage"
+	"github.com/emitter-io/emitter/internal/service/cluster"
+)
+
+// VerifAttach hands an already accepted connection to the broker, exactly as
+// the TCP server's OnAccept callback does.
+func (s *Service) VerifAttach(c net.Conn) {
+	s.onAcceptConn(c)
+}
+
+// VerifStartCluster performs the cluster part of Listen(): start the swarm,
+// join the seed and start the surveyor.
+func (s *Service) VerifStartCluster() {
+	if s.cluster != nil {
+		s.cluster.Listen(s.context)
+		if s.Config.Cluster.Seed != "" {
+			s.Join(s.Config.Cluster.Seed)
+		}
+		s.surveyor.Start()
+	}
+}
+
+// VerifServe performs what listen() does, on a listener supplied by the caller.
+func (s *Service) VerifServe(root net.Listener) {
+	l := listener.VerifNewListener(root, listener.Config{
+		FlushRate: s.Config.Limit.FlushRate,
+	})
+	l.SetReadTimeout(120 * 1e9)
+	l.ServeAsync(listener.MatchHTTP(), s.http.Serve)
+	l.ServeAsync(listener.MatchAny(), s.tcp.Serve)
+	go l.Serve()
+}
+
+// VerifTrie exposes the subscription trie (read-only use).
+func (s *Service) VerifTrie() *message.Trie { return s.subscriptions }
+
+// VerifSwarm exposes the cluster swarm (nil without cluster).
+func (s *Service) VerifSwarm() *cluster.Swarm { return s.cluster }
+
+// VerifConnections returns the connection counter.
+func (s *Service) VerifConnections() int64 { return s.connections }
+
+// VerifStorage exposes the message store.
+func (s *Service) VerifStorage() storage.Storage { return s.storage }
